@@ -125,6 +125,10 @@ func vfRunScenarios(r *vfev.Report, scenarios []vfScenario) {
 func vfLocksetViolations(res vsched.Result) []vfXViolation {
 	var out []vfXViolation
 	for _, l := range res.Lockset {
+		if k, w, ok := strings.Cut(l, " | "); ok {
+			out = append(out, vfXViolation{Key: k, What: w})
+			continue
+		}
 		key := strings.NewReplacer(" (", ":", ") at ", "@", " ", "").Replace(l)
 		out = append(out, vfXViolation{Key: "C14:unprotected-access:" + key, What: "shared data touched without holding its lock: " + l})
 	}
